@@ -31,6 +31,7 @@ func init() {
 			"R6 numeral agreement (siblings): every strconv conversion of the stored text of a number token (list index, each map-key kind) reads it in the same base, so one spelling denotes one number whatever the step kind. " +
 			"R7 parse width: the bit size given to strconv.ParseInt/ParseUint for a number literal (a constant, or a small helper evaluated for the key kind of the enclosing switch arm) is not larger than the integer type the result is converted to, so out-of-range literals are refused rather than truncated. " +
 			"R8 cursor kind (ESP on the evaluator): Value.List() only after IsList() was true, Value.Map() only after IsMap() was true, Value.Message() only where the descriptor cursor is not a field descriptor or is a field known to be neither list nor map — these conversions panic on a mismatch. " +
+			"R10 the scanner appends decoded code points with WriteRune, never as a narrowed byte. " +
 			"R9 every protoreflect.Value produced in the evaluator's region is read out of the message walked (Message/List/Map.Get, MapKey.Value, ValueOf*), never a descriptor's Default() or a mutating accessor. " +
 			"Not covered: value equality with a field-by-field walk, panics inside protoreflect for ill-typed hand-built paths, scanner progress (regular-expression reasoning), agreement of parser and evaluator descriptor transfers beyond R1.",
 		Assumptions: []string{"go/types, go/ssa", "protoreflect accessors"},
@@ -75,6 +76,44 @@ func runC19(c *Ctx) {
 		}
 	}
 	c.S.Floor("R1", "path evaluators in parsepath", 1, len(evals))
+	// ---- R10: the scanner appends code points as text ----
+	// A string-literal key is built from the code points the scanner decoded; each goes into the literal through
+	// WriteRune (its UTF-8 encoding). Narrowing a decoded code point to a byte and appending that (WriteByte(byte(r)))
+	// makes the key of "\u00e9" the single invalid byte 0xE9 instead of the text "é": the path addresses another
+	// map entry (or none) than its literal spelling.
+	{
+		nRune, nByte := 0, 0
+		for _, f := range c.P.RepoFunctions() {
+			if load.RelPkg(f) != "gcetcbendorsement/parsepath" || c.isTestFunc(f) {
+				continue
+			}
+			for _, call := range callsIn(f, func(call ssa.CallInstruction) bool {
+				cal := call.Common().StaticCallee()
+				return cal != nil && cal.Signature.Recv() != nil && (cal.Name() == "WriteRune" || cal.Name() == "WriteByte") && cal.Pkg != nil && (cal.Pkg.Pkg.Path() == "bytes" || cal.Pkg.Pkg.Path() == "strings")
+			}) {
+				if call.Common().StaticCallee().Name() == "WriteRune" {
+					nRune++
+					continue
+				}
+				nByte++
+				arg := call.Common().Args[1]
+				fromRune := false
+				for i := 0; i < 4; i++ {
+					if cv, ok := arg.(*ssa.Convert); ok {
+						if bt, ok := cv.X.Type().Underlying().(*types.Basic); ok && (bt.Kind() == types.Int32 || bt.Kind() == types.Int || bt.Kind() == types.Int64 || bt.Kind() == types.Uint32) {
+							fromRune = true
+						}
+						arg = cv.X
+					}
+				}
+				c.S.Check(!fromRune, "R10", load.FuncName(f)+":WriteByte of a code point", c.pos(call.Pos()), "the byte appended is an input byte, not a narrowed code point", "a decoded code point is narrowed to a byte and appended raw: for U+0080..U+00FF the literal holds an invalid lone byte instead of the character's UTF-8 encoding, so the key differs from the same key spelled literally")
+			}
+		}
+		if nByte == 0 {
+			c.S.OK("R10", "gcetcbendorsement/parsepath:literals built with WriteRune", "", fmt.Sprintf("%d WriteRune sites, no WriteByte", nRune), true)
+		}
+		c.S.Floor("R10", "WriteRune sites in the scanner", 2, nRune)
+	}
 	// ---- R9: where the evaluator's values come from ----
 	// Every protoreflect.Value produced in the evaluator's region is read out of the message being walked
 	// (Message.Get, List.Get, Map.Get, MapKey.Value) or wraps it (protoreflect.ValueOf*). A descriptor's Default(),
